@@ -499,6 +499,14 @@ func (a *devAlt) struct61(body []byte) []byte {
 		ovh(func(h *fdo.VoucherHeader) {
 			h.ManufacturerKey = devPubKey(a.cf.spec, a.cf.enc, a.stranger(), "stranger")
 		})
+	case "other-voucher", "other-voucher-hmacalg":
+		// the whole voucher of another device of the same manufacturer and owner, presented for THIS session (header, HMAC,
+		// entry count; the entries follow in on63): only the header HMAC under this device's secret tells them apart
+		if a.otherOV != nil {
+			pl[0] = mustEnc(a.otherOV.Header)
+			pl[1] = mustEnc(uint8(len(a.otherOV.Entries)))
+			pl[2] = mustEnc(a.otherOV.Hmac)
+		}
 	case "hmac-val":
 		pl[2] = flipHashVal(pl[2])
 	case "hmac-alg-sha", "hmac-alg-other", "hmac-alg-unknown":
@@ -589,6 +597,10 @@ func (a *devAlt) struct61(body []byte) []byte {
 // on63 gives what is delivered instead of the owner's k-th OVNextEntry.
 func (a *devAlt) on63(k int, h devMsg) devMsg {
 	d := devMsg{h.typ, bytes.Clone(h.body)}
+	if a.name == "61:s" && strings.HasPrefix(a.change, "other-voucher") && a.otherOV != nil && k < len(a.otherOV.Entries) {
+		d.body = body63(k, a.otherOV.Entries[k])
+		return d
+	}
 	if !strings.HasPrefix(a.name, "63:") {
 		return d
 	}
@@ -920,6 +932,45 @@ func evalVerifyOwner(p core.Params) (line, impl string) {
 				return devKind, "err-record the other device's session gave no 61"
 			}
 		}
+	case "61:s":
+		if strings.HasPrefix(a.change, "other-voucher") {
+			oc := cf
+			oc.to1d = false
+			_, oov, es := devEnroll(ctx, e, oc)
+			if es != "" {
+				return devKind, es
+			}
+			if a.change == "other-voucher-hmacalg" && len(oov.Entries) == 1 && oov.Entries[0].Payload != nil {
+				// the other device tagged its header HMAC with a plain hash identifier when it was manufactured (the
+				// manufacturer cannot check the HMAC): a voucher that is consistent in itself — entry 0 covers that tag
+				cp := *oov
+				cp.Hmac.Algorithm = protocol.Sha256Hash
+				if len(cp.Hmac.Value) != 32 {
+					cp.Hmac.Algorithm = protocol.Sha384Hash
+				}
+				alg := cp.Entries[0].Payload.Val.PreviousHash.Algorithm
+				hh := alg.HashFunc().New()
+				hh.Write(mustEnc(&cp.Header.Val))
+				hh.Write(mustEnc(cp.Hmac))
+				pl := cp.Entries[0].Payload.Val
+				pl.PreviousHash = protocol.Hash{Algorithm: alg, Value: hh.Sum(nil)}
+				mfg := env.Key(cf.spec, "mfg")
+				salg := devAlgFor(mfg, a.pss)
+				prot := devProt(salg)
+				body := mustEnc(pl)
+				raw := &rawS1{tagged: true, prot: prot, unprot: map[int64]cbor.RawBytes{}, payload: body, sig: devSign(mfg, salg, prot, body)}
+				var en cose.Sign1Tag[fdo.VoucherEntryPayload, []byte]
+				if err := cbor.Unmarshal(raw.bytes(), &en); err != nil {
+					return devKind, "err-rebuild-entry " + err.Error()
+				}
+				cp.Entries = []cose.Sign1Tag[fdo.VoucherEntryPayload, []byte]{en}
+				if err := cp.VerifyEntries(); err != nil {
+					return devKind, "err-rebuilt-voucher-inconsistent " + err.Error()
+				}
+				oov = &cp
+			}
+			a.otherOV = oov
+		}
 	case "sub:stale-session":
 		if a.sub61 = record61(ctx, e, fx.dev, cf.spec); a.sub61 == nil {
 			return devKind, "err-record the earlier session gave no 61"
@@ -1063,7 +1114,7 @@ func registerDeviceKinds(c *core.Ctx) {
 
 // ---- the runner ----
 
-var dev61Changes = []string{"none", "nonce", "hellohash-val", "hellohash-alg", "ovh-guid", "ovh-devinfo", "ovh-mfgkey", "hmac-val", "hmac-alg-sha", "hmac-alg-other", "hmac-alg-unknown", "num+1", "num-1", "num0",
+var dev61Changes = []string{"none", "nonce", "hellohash-val", "hellohash-alg", "ovh-guid", "ovh-devinfo", "ovh-mfgkey", "hmac-val", "hmac-alg-sha", "hmac-alg-other", "hmac-alg-unknown", "other-voucher", "other-voucher-hmacalg", "num+1", "num-1", "num0",
 	"kexa", "kexa-fresh", "siginfo", "maxmsg", "no256", "no257", "alg", "payload-null", "untagged"}
 
 var devTo1dAlts = []string{"to1d:payload", "to1d:hash", "to1d:sig-flip", "to1d:sig-short", "to1d:resigned-stranger", "to1d:payload-resigned-stranger",
@@ -1135,6 +1186,8 @@ func RunC01(c *core.Ctx) {
 				detail += ": " + r.err
 			}
 			c.Fail("honest-owner-refused:"+cf.spec.Name, detail, devKind, p, o)
+		case alt == "61:s" && strings.HasPrefix(p["change"], "other-voucher") && o.Impl == "accept":
+			c.Fail("foreign-voucher-accepted:"+p["change"]+":"+cf.spec.Name, "the device sent ProveDevice although it was shown the voucher of ANOTHER device (its header HMAC cannot verify under this device's secret), correctly signed for this session by the owner", devKind, p, o)
 		case strings.HasPrefix(alt, "cred:") && o.Impl == "accept":
 			c.Fail("wrong-credential-accepted:"+alt+":"+cf.spec.Name, "the device sent ProveDevice although its credential / secret does not match the voucher it was shown", devKind, p, o)
 		case alt != "none" && o.Impl == "accept" && p["mode"] != "d" && r != nil:
